@@ -8,7 +8,7 @@ From Coq Require Import List ZArith QArith Qcanon Lia Bool Ring Field.
 From Inovesa Require Import Base.FieldKit Base.Sums Base.Float32 Gen.Gen_Coeffs Model.Kick
   Model.StepKinds Gen.Gen_StepOrder Model.RunKinds Gen.Gen_WakeUpdate Gen.Gen_Identity Gen.Gen_KickIndex
   Model.Copy Model.WakeUpdate Model.Haiss Proofs.WeightsP Proofs.KickP Proofs.KickGridP Proofs.CopyP
-  Proofs.WakeUpdateP.
+  Proofs.HaissGenP.
 Import ListNotations.
 Local Open Scope Z_scope.
 
@@ -356,9 +356,9 @@ Lemma ky_hinfo_own n nb it b x y j :
   ky_hinfo (wk_kd n nb) (wk_pd n nb) it (km_lastbunch nb) b x y j = (b * n + x) * it + j.
 Proof.
   intros Hb. unfold ky_hinfo.
-  first [ rewrite km_lastbunch_model by exact Hb
-        | rewrite (Z.min_comm (km_lastbunch nb) b), km_lastbunch_model by exact Hb ].
-  rewrite wk_pd_model. ring.
+  first [ rewrite hg_km_lastbunch_model by exact Hb
+        | rewrite (Z.min_comm (km_lastbunch nb) b), hg_km_lastbunch_model by exact Hb ].
+  rewrite hg_wk_pd_model. ring.
 Qed.
 
 (** one output cell: if the table holds, where the y branch looks for (b,x), the row built from
@@ -373,7 +373,7 @@ Proof.
   rewrite <- (row_out_restrict n it _ (fun ys => D (didx n b x ys)) y Hn).
   unfold ykick_cell, row_out. cbv zeta. apply (f_equal qsum). apply map_ext_in. intros j Hj.
   apply in_zrange in Hj. rewrite HH by exact Hj.
-  rewrite wk_kd_model, wk_pd_model, ky_src_gen, ky_bound_gen, ky_read_gen. reflexivity.
+  rewrite hg_wk_kd_model, hg_wk_pd_model, ky_src_gen, ky_bound_gen, ky_read_gen. reflexivity.
 Qed.
 
 Lemma rowD_gykick n nb it (H : Z -> Z * Qc) (D : Z -> Qc) o b x y :
@@ -393,16 +393,28 @@ Proof.
 Qed.
 
 (** what the two tables hold where the y branch looks for bunch [b]: the row built from bunch b's
-    own wake potential entry (WakePotentialMap::update, generated program; Proofs/WakeUpdateP.v) and
+    own wake potential entry (WakePotentialMap::update, generated program; Proofs/HaissGenP.v) and
     from the RF offset of bunch b's block (KickMap::updateSM, generated loops) *)
 Lemma wake_table_own n nb it wp b x y j :
   valid_it it -> 0 < n -> 0 <= b < nb -> 0 <= x < n -> 0 <= j < it ->
   wake_table n nb it wp (ky_hinfo (wk_kd n nb) (wk_pd n nb) it (km_lastbunch nb) b x y j) =
   sm_entry n it (wp (b * n + x)) j.
 Proof.
-  intros Hv Hn Hb Hx Hj.
-  destruct (wake_kick_reads_own_potential n nb it wp b x y j Hv Hn Hb Hx Hj) as [_ E].
-  rewrite E, wp_flat_model. reflexivity.
+  intros Hv Hn Hb Hx Hj. destruct (valid_it_range it Hv) as [Hi _].
+  rewrite ky_hinfo_own by exact Hb.
+  assert (Hr : 0 <= b * n + x < nb * n) by nia.
+  assert (Hk : 0 <= (b * n + x) * it + j < nb * n * it) by nia.
+  rewrite hg_wake_table_spec by (try exact Hk; lia).
+  unfold updateSM. rewrite div_lin, mod_lin by lia. reflexivity.
+Qed.
+
+(** the offset-vector entry of bunch b's own block after update() (what /WakePotential/data records) *)
+Lemma wake_offsets_own n nb it wp b x :
+  0 < n -> 0 <= b < nb -> 0 <= x < n ->
+  wake_offsets n nb it wp (Z.min b (km_lastbunch nb) * wk_pd n nb + x) = wp (b * n + x).
+Proof.
+  intros Hn Hb Hx. rewrite hg_km_lastbunch_model by exact Hb. rewrite hg_wk_pd_model.
+  rewrite hg_wake_offsets_spec. rewrite in_rng_true by nia. reflexivity.
 Qed.
 
 Lemma rf_table_own n nb it t xc b x y j :
@@ -412,11 +424,11 @@ Lemma rf_table_own n nb it t xc b x y j :
 Proof.
   intros Hv Hn Hb Hx Hj. destruct (valid_it_range it Hv) as [Hi _].
   rewrite ky_hinfo_own by exact Hb.
-  unfold rf_table. rewrite wk_kd_model, wk_offset_size_model.
+  unfold rf_table. rewrite hg_wk_kd_model, hg_wk_offset_size_model.
   assert (Hr : 0 <= b * n + x < nb * n) by nia.
   assert (Hsz : 0 <= nb * n) by lia.
   assert (Hk : 0 <= (b * n + x) * it + j < nb * n * it) by nia.
-  rewrite updateSM_loop_spec by lia.
+  rewrite hg_updateSM_loop_spec by lia.
   rewrite in_rng_true by exact Hk. unfold updateSM. rewrite div_lin, mod_lin by lia. reflexivity.
 Qed.
 
@@ -476,10 +488,8 @@ Theorem wake_kick_force_law_eff n nb it (wp : Z -> Qc) (t xc : Qc) (D : Z -> Qc)
   M1 n r' = (M1 n r - (eff_off n W + eff_off n orf) * M0 n r)%Qc.
 Proof.
   intros Hv H2 Hn Hb Hx i W orf r Hs F1 F2 r'.
-  split; [apply wp_flat_model|]. split.
-  { destruct (valid_it_range it Hv) as [Hi _].
-    destruct (wake_kick_reads_own_potential n nb it wp b x 0 0 Hv ltac:(lia) Hb Hx ltac:(lia)) as [E _].
-    cbv zeta in E. rewrite E, wp_flat_model. reflexivity. }
+  split; [apply hg_wp_flat_model|]. split.
+  { apply wake_offsets_own; assumption || lia. }
   assert (E : forall y, r' y = krow n it orf (krow n it W r) y).
   { intros y. unfold r'. change (ykick_prefix step_order) with [MWake; MRF].
     cbn [energy_kicks fold_left energy_kick].
